@@ -14,7 +14,10 @@ META = {
         'zero denominators / log(0) produce a NaN token exactly as numpy does, the isnan fallback runs, and its three piecewise '
         'formulas are compared with |a| * integral |2t-m| dt.  segment_length (no-scipy recursion) with an uninterpreted point(): the '
         'result is the sum of chords over the dyadic partition it evaluated.  Path.length / length(T0,T1): sum and composition of the '
-        'segment lengths (stub segments), shared with C05.'),
+        'segment lengths (stub segments), shared with C05.  CubicBezier.length / Arc.length dispatch (with and without scipy): both integrators '
+        'are replaced by an uninterpreted kernel Klen(a,b) with the arc-length contract; the interval, the integrand (= |B\'(tau)| as a polynomial '
+        'identity for cubics, = |Arc.derivative(tau)| for arcs), the arguments of the fallback and the returned term are checked; a returned term '
+        'that is not the kernel itself (a closed-form shortcut) must satisfy s(t0,t0) = 0 and ds/dt1 = speed.'),
     'outside': ['that QUADPACK (scipy.integrate.quad) and the chord recursion converge to the arc length of cubics and elliptic arcs to 1e-6 '
                 '(C/Fortran code behind a boundary; no closed form) -- NOT claimed', 'the 5e-3 cusp clause', 'cancellation of the closed form for nearly '
                 'collinear control points (IEEE effect on transcendental functions)', 'the |a| < 1e-12 branch for 0 < |a| < 1e-12 (approximation)'],
@@ -79,6 +82,9 @@ def isnan_tok(x):
     return x is NAN
 
 
+D_HOOKS = {}     # uninterpreted function name -> derivative rule(e, var, ctx, memo)
+
+
 def D(e, var, ctx, memo=None):
     """formal derivative of a z3 real term w.r.t. the constant `var`;
     sqrt atoms via ctx.sqrt_memo, ln via LN."""
@@ -127,6 +133,8 @@ def D(e, var, ctx, memo=None):
             r = (D(u, var, ctx, memo) * v - u * D(v, var, ctx, memo)) / (v * v)
         elif kind == z3.Z3_OP_UNINTERPRETED and e.decl().name() == 'ln':
             r = D(ch[0], var, ctx, memo) / ch[0]
+        elif kind == z3.Z3_OP_UNINTERPRETED and e.decl().name() in D_HOOKS:
+            r = D_HOOKS[e.decl().name()](e, var, ctx, memo)
         elif kind == z3.Z3_OP_TO_REAL:
             r = z3.RealVal(0)
         else:
@@ -483,7 +491,10 @@ def fam_segment_length(R, min_depth):
         R.ob('segment_length.d%d.partition-is-dyadic' % min_depth, ctx, dyadic, timeout_ms=60000)
         R.ob('segment_length.d%d.result=chord-sum' % min_depth, ctx, req(s, total), timeout_ms=60000,
              cex=lambda m_: {'cls': 'segment_length is not the chord sum of its partition', 'inputs': str(m_)[:200], 'script': REPLAY_SEGLEN})
-        R.ob('segment_length.d%d.refined-at-least-min_depth' % min_depth, ctx, z3.BoolVal(len(c.evald) >= 2 ** (min_depth + 1) - 1))
+        R.ob('segment_length.d%d.refined-at-least-min_depth' % min_depth, ctx, z3.BoolVal(len(c.evald) >= 2 ** (min_depth + 1) - 1),
+             cex=lambda m_: {'cls': 'segment_length stops refining before min_depth', 'inputs': {'evaluated_points': len(c.evald), 'min_depth': min_depth,
+                                                                                              'chord': mval(m_, abs(SC(SR(fx(t1.e)), SR(fy(t1.e))) - SC(SR(fx(t0.e)), SR(fy(t0.e)))))},
+                             'script': REPLAY_REFINE})
         if R.paths % 5 == 1:
             R.sample({'min_depth': min_depth, 'evaluated_points': len(c.evald)})
 
@@ -500,6 +511,217 @@ for md in (0, 1, 2, 3):
 '''
 
 
+# a path on which fewer than 2^(min_depth+1)-1 points were evaluated: confirmed on the real function with curves whose chord
+# says nothing about their length (coincident or nearly coincident end points, fold-backs), against a fine chord sum
+REPLAY_REFINE = '''
+import svgpathtools.path as P
+curves = [CubicBezier(1+1j, 5+2j, 2+6j, 1+1j), CubicBezier(0j, 2+0j, 2+0j, 0j), QuadraticBezier(0j, 1+1j, 0j),
+          CubicBezier(0j, 30+90j, 70-60j, 100+10j), CubicBezier(0j, 4+0j, -3+0j, 1e-9+0j), QuadraticBezier(1+1j, 3+1j, 1+1j)]
+for seg in curves:
+    for (a, b) in ((0, 1), (0.25, 0.75)):
+        got = P.segment_length(seg, a, b, seg.point(a), seg.point(b), P.LENGTH_ERROR, P.LENGTH_MIN_DEPTH, 0)
+        N = 1 << 14
+        pts = [seg.point(a + (b - a) * i / N) for i in range(N + 1)]
+        want = sum(abs(pts[i + 1] - pts[i]) for i in range(N))
+        if abs(got - want) > 1e-4 * (1 + want):
+            REPRODUCED('segment_length(%r, %r, %r) with the default error/min_depth = %r, chord sum over %d pieces = %r' % (seg, a, b, got, N, want))
+'''
+
+
+REPLAY_CLEN = REPLAY_ORACLE + """
+import svgpathtools.path as P
+P._quad_available = %r
+ps = %r; t0 = %r; t1 = %r
+seg = CubicBezier(*ps)
+got = seg.length(t0, t1)
+N = 1 << 14
+pts = [bernF(ps, t0 + (t1 - t0) * i / N) for i in range(N + 1)]
+chord = sum(abs(pts[i + 1] - pts[i]) for i in range(N))
+if not (got == got) or abs(got - chord) > 1e-5 * (1 + chord):
+    REPRODUCED('CubicBezier%%r.length(%%r,%%r) = %%r (scipy quadrature %%s), chord sum over %%d pieces = %%r' %% (tuple(ps), t0, t1, got, 'available' if P._quad_available else 'unavailable', N, chord))
+"""
+
+KLEN = z3.Function('Klen', z3.RealSort(), z3.RealSort(), z3.RealSort())
+
+
+def fam_cubic_dispatch(R, quad_available, normalised):
+    """CubicBezier.length(t0, t1): what is handed to scipy.integrate.quad / segment_length, and what is returned.
+    Both integrators are replaced by the uninterpreted kernel Klen(a, b) whose contract is `the arc length of this curve
+    between a and b` (d/db Klen = speed(b), d/da Klen = -speed(a), Klen(a, a) = 0).  Whatever term s the method returns must be
+    an antiderivative of the speed: s(t0,t0) = 0 and ds/dt1 = |B'(t1)| -- for Klen(t0, t1) itself this is immediate, for any
+    closed-form shortcut it is a real obligation."""
+    import svgpathtools.path as P
+    R.bound(quad_available=quad_available, control_points='start = 0, end = 1 (similarity normal form), controls symbolic' if normalised else 'symbolic',
+            t0_t1='0 <= t0 < t1 <= 1 symbolic', error='symbolic > 0', min_depth='symbolic')
+    R.stub('scipy.integrate.quad / path.segment_length -> uninterpreted Klen(a, b) with the arc-length contract')
+    calls = []
+
+    def quad_stub(f, a, b, epsabs=None, limit=None, **kw):
+        calls.append(('quad', f, lift(a), lift(b), epsabs))
+        return (SR(KLEN(lift(a).e, lift(b).e)), 0.0)
+
+    def seglen_stub(curve, start, end, start_point, end_point, error=None, min_depth=None, depth=0):
+        calls.append(('seglen', curve, lift(start), lift(end), start_point, end_point, error, min_depth, depth))
+        return SR(KLEN(lift(start).e, lift(end).e))
+
+    def run():
+        del calls[:]
+        cx = Ctx.cur
+        if normalised:
+            ps = [SC(0, 0), symc('p1'), symc('p2'), SC(1, 0)]
+        else:
+            ps = [symc('p%d' % i) for i in range(4)]
+        t0, t1, tau = symr('t0'), symr('t1'), symr('tau')
+        err, md = symr('error'), symr('min_depth')
+        cx.assume(t0.e >= 0, t0.e < t1.e, t1.e <= 1, err.e > 0, md.e >= 0)
+        seg = P.CubicBezier(*ps)
+        with patched(P, quad=quad_stub, segment_length=seglen_stub, _quad_available=quad_available):
+            s = seg.length(t0, t1, err, md)
+            integrands = [(c[1](tau)) for c in calls if c[0] == 'quad']
+        return seg, ps, t0, t1, tau, err, md, s, list(calls), integrands
+
+    for ctx, (kind, val) in explore(run, maxpaths=200, logic=None):
+        R.path(ctx)
+        if kind != 'ok':
+            R.unexpected(ctx, 'unexpected %s %r' % (kind, val))
+            continue
+        seg, ps, t0, t1, tau, err, md, s, cl, integrands = val
+        Ctx.cur = ctx
+
+        def cex(m):
+            p0 = [mcval(m, p) for p in ps]
+            return {'cls': 'CubicBezier.length is not the arc length (%s scipy)' % ('with' if quad_available else 'without'),
+                    'inputs': {'ps': str(p0), 't0': mval(m, t0), 't1': mval(m, t1)}, 'script': REPLAY_CLEN % (quad_available, p0, mval(m, t0), mval(m, t1))}
+
+        def speed_at(x):
+            d = deriv_oracle(ps, SR(x), 1)
+            return abs(d)
+        # what the integrators are given
+        for c in cl:
+            if c[0] == 'quad':
+                R.ob('quad.interval', ctx, z3.And(c[2].e == t0.e, c[3].e == t1.e), cex=cex)
+            else:
+                R.ob('segment_length.arguments', ctx, z3.And(z3.BoolVal(c[1] is seg), c[2].e == t0.e, c[3].e == t1.e, ceq(c[4], bern(ps, t0)), ceq(c[5], bern(ps, t1)),
+                                                              z3.BoolVal(isinstance(c[8], int) and c[8] == 0)), cex=cex)
+        for f_tau in integrands:
+            want = speed_at(tau.e)
+            R.ob('quad.integrand=speed', ctx, z3.And(sq(lift(f_tau)) == sq(want), lift(f_tau).e >= 0), cex=cex)
+        # the returned term is an antiderivative of the speed
+        s = lift(s)
+
+        def dK(e, var, cx_, memo):
+            a, b = e.children()
+            return speed_at(b).e * D(b, var, cx_, memo) - speed_at(a).e * D(a, var, cx_, memo)
+        D_HOOKS['Klen'] = dK
+        ds = D(s.e, t1.e, ctx)
+        sp1 = speed_at(t1.e)
+        at0 = z3.substitute(s.e, (t1.e, t0.e))
+        kzero = [KLEN(t0.e, t0.e) == 0]
+        # sqrt atoms of s are differentiable only where positive (the non-differentiable points are excluded: a null set)
+        pos = [q > 0 for kk, (rad, q) in ctx.sqrt_memo.items() if isinstance(kk, int) and z3.is_const(q)]
+        gap = ds - sp1.e
+        # violation with margin, looked for among collinear control polygons on the real axis (fold-backs included): a 1-D problem
+        robust = [zabs(p.real.e) <= 3 for p in ps] + [p.imag.e == 0 for p in ps] + [t1.e - t0.e >= 0.2, z3.Or(gap >= 0.5, gap <= -0.5)] + pos
+        R.ob('result.d/dt1=speed', ctx, ds == sp1.e, extra=pos, cex=cex, robust=robust, timeout_ms=60000)
+        if z3.eq(z3.simplify(s.e), z3.simplify(KLEN(t0.e, t1.e))):
+            R.ob('result.at-t1=t0', ctx, z3.BoolVal(True))
+        else:
+            # s(t0, t0) = 0: the sqrt atoms of s are re-derived at t1 := t0
+            R.ob('result.at-t1=t0', ctx, at0 == 0, extra=kzero + [z3.substitute(c_, (t1.e, t0.e)) for c_ in ctx.pc if not z3.eq(c_, t0.e < t1.e)], cex=cex, timeout_ms=30000)
+        R.sample({'quad_available': quad_available, 'calls': [c[0] for c in cl]})
+
+
+REPLAY_ALEN = """
+import math
+import svgpathtools.path as P
+P._quad_available = %r
+t0, t1 = %r, %r
+arcs = [Arc(0j, 2+1j, 0, 0, 1, 3+1j), Arc(0j, 2+1j, 30, 1, 0, 3+1j), Arc(1+1j, 5+1j, -75, 1, 1, 2+2j), Arc(0j, 1+1j, 0, 1, 1, 1+1j), Arc(0j, 3+0.5j, 110, 0, 0, -2+4j)]
+for arc in arcs:
+    for (a, b) in ((t0, t1), (0, 1), (0.25, 0.75)):
+        got = arc.length(a, b)
+        N = 1 << 14
+        pts = [arc.point(a + (b - a) * i / N) for i in range(N + 1)]
+        chord = sum(abs(pts[i + 1] - pts[i]) for i in range(N))
+        if not (got == got) or abs(got - chord) > 1e-5 * (1 + chord):
+            REPRODUCED('%%r.length(%%r,%%r) = %%r (scipy quadrature %%s), chord sum over %%d pieces = %%r' %% (arc, a, b, got, 'available' if P._quad_available else 'unavailable', N, chord))
+"""
+
+
+def fam_arc_dispatch(R, quad_available, rot='p37'):
+    """Arc.length(t0, t1): the integrand handed to quad is |derivative| (Arc.derivative itself is C04's), the interval is [t0, t1],
+    the fallback gets point(t0), point(t1), and the value returned is the integrator's."""
+    import svgpathtools.path as P
+    from . import c04
+    from ..ang import Ang
+    c04.install(P)
+    R.bound(quad_available=quad_available, rotation=rot, t0_t1='0 <= t0 < t1 <= 1 symbolic')
+    R.stub('scipy.integrate.quad / path.segment_length -> uninterpreted Klen(a, b)', 'Arc._parameterize -> free theta/delta/centre (as in C04)')
+    calls = []
+
+    def quad_stub(f, a, b, epsabs=None, limit=None, **kw):
+        calls.append(('quad', f, lift(a), lift(b), epsabs))
+        return (SR(KLEN(lift(a).e, lift(b).e)), 0.0)
+
+    def seglen_stub(curve, start, end, start_point, end_point, error=None, min_depth=None, depth=0):
+        calls.append(('seglen', curve, lift(start), lift(end), start_point, end_point, error, min_depth, depth))
+        return SR(KLEN(lift(start).e, lift(end).e))
+    orig = P.Arc._parameterize
+
+    def fake(self):
+        cx = Ctx.cur
+        th, dl = symr('theta'), symr('delta')
+        c1, s1, c2, s2 = cx.fresh('ct'), cx.fresh('st'), cx.fresh('cd'), cx.fresh('sd')
+        cx.assume(c1 * c1 + s1 * s1 == 1, c2 * c2 + s2 * s2 == 1)
+        self.theta = Ang(th.e, c1, s1, 'deg')
+        self.delta = Ang(dl.e, c2, s2, 'deg')
+        self.center = symc('ctr')
+
+    def run():
+        del calls[:]
+        P.Arc._parameterize = fake
+        try:
+            deg, c, s = c04.ROTATIONS[rot]
+            rx, ry = symr('rx'), symr('ry')
+            cx = Ctx.cur
+            cx.assume(rx.e > 0, ry.e > 0)
+            st_, en_ = symc('st'), symc('en')
+            cx.assume(z3.Not(ceq(st_, en_)))
+            arc = P.Arc(st_, SC(rx, ry), c04.RotDeg(deg, c, s), True, True, en_)
+            t0, t1, tau = symr('t0'), symr('t1'), symr('tau')
+            err, md = symr('error'), symr('min_depth')
+            cx.assume(t0.e >= 0, t0.e < t1.e, t1.e <= 1, err.e > 0, md.e >= 0)
+            with patched(P, quad=quad_stub, segment_length=seglen_stub, _quad_available=quad_available):
+                s_ = arc.length(t0, t1, err, md)
+                integrands = [(c_[1](tau), abs(arc.derivative(tau))) for c_ in calls if c_[0] == 'quad']
+                ends = (arc.point(t0), arc.point(t1))
+            return arc, t0, t1, s_, list(calls), integrands, ends
+        finally:
+            P.Arc._parameterize = orig
+
+    for ctx, (kind, val) in explore(run, maxpaths=200):
+        R.path(ctx)
+        if kind != 'ok':
+            R.unexpected(ctx, 'unexpected %s %r' % (kind, val))
+            continue
+        arc, t0, t1, s_, cl, integrands, ends = val
+
+        def cex(m):
+            return {'cls': 'Arc.length is not what the integrator returns for [t0,t1] (%s scipy)' % ('with' if quad_available else 'without'),
+                    'inputs': {'t0': mval(m, t0), 't1': mval(m, t1)}, 'script': REPLAY_ALEN % (quad_available, mval(m, t0), mval(m, t1))}
+        for c_ in cl:
+            if c_[0] == 'quad':
+                R.ob('quad.interval', ctx, z3.And(c_[2].e == t0.e, c_[3].e == t1.e), cex=cex)
+            else:
+                R.ob('segment_length.arguments', ctx, z3.And(z3.BoolVal(c_[1] is arc), c_[2].e == t0.e, c_[3].e == t1.e, ceq(c_[4], ends[0]), ceq(c_[5], ends[1]),
+                                                              z3.BoolVal(isinstance(c_[8], int) and c_[8] == 0)), cex=cex)
+        for got, want in integrands:
+            R.ob('quad.integrand=|derivative|', ctx, z3.And(sq(lift(got)) == sq(lift(want)), lift(got).e >= 0), cex=cex)
+        R.ob('result=integrator(t0,t1)', ctx, lift(s_).e == KLEN(t0.e, t1.e), cex=cex)
+        R.ob('one-integrator-call', ctx, z3.BoolVal(len(cl) == 1), cex=cex)
+        R.sample({'quad_available': quad_available, 'calls': [c_[0] for c_ in cl]})
+
+
 def fam_path_sum(R, n):
     from . import c05
     c05.fam_length_T0T1(R, n)
@@ -512,4 +734,8 @@ def families(tier):
         fams.append(('segment_length-d%d' % d, M, 'fam_segment_length', {'min_depth': d}))
     for n in (1, 2, 3):
         fams.append(('path-sum-n%d' % n, M, 'fam_path_sum', {'n': n}))
+    for qa in (True, False):
+        fams.append(('arc-dispatch-%s' % ('quad' if qa else 'noscipy'), M, 'fam_arc_dispatch', {'quad_available': qa}))
+        for nrm in (True, False):
+            fams.append(('cubic-dispatch-%s-%s' % ('quad' if qa else 'noscipy', 'normal' if nrm else 'free'), M, 'fam_cubic_dispatch', {'quad_available': qa, 'normalised': nrm}))
     return fams
